@@ -1187,3 +1187,189 @@ func ruleC39(c *Ctx, r *Report) {
 		r.undecided(rule, c.FuncName(ws), "stream-success", c.Pos(ws.Pos()), "no success return after the first result packet")
 	}
 }
+
+func init() {
+	register("C39", "", ruleC39rows)
+	register("C16", "", ruleC16c)
+	register("C32", "", ruleC32c)
+}
+
+// ruleC39rows (PC5b): every packet that readResultRows reads as a row is stored in the result before the loop moves on:
+// from the readPacket call every path that is not an error exit and not the EOF edge stores the packet into RowDatas
+// before the next read, the truncation break or the success return.
+func ruleC39rows(c *Ctx, r *Report) {
+	const rule = "PC5b"
+	r.floor(rule, 1)
+	fn := c.Method("backend", "DirectConnection", "readResultRows")
+	readPacket := c.Method("backend", "DirectConnection", "readPacket")
+	isEOF := c.Method("backend", "DirectConnection", "isEOFPacket")
+	if fn == nil || readPacket == nil || isEOF == nil {
+		r.undecided(rule, "(*backend.DirectConnection).readResultRows", "anchor", "-", "anchors not found")
+		return
+	}
+	name := c.FuncName(fn)
+	n := 0
+	for _, ci := range callsIn(fn, func(cc *ssa.CallCommon) bool { return callsFunc(cc, readPacket) }) {
+		call, ok := ci.(*ssa.Call)
+		if !ok {
+			continue
+		}
+		data := resultOf(call, 0)
+		if data == nil {
+			continue
+		}
+		n++
+		a := aliasSet(data)
+		prune := map[[2]int]bool{}
+		for _, e := range errNilEdgesOfCall(call) {
+			if !e.Val {
+				prune[[2]int{e.If.Block().Index, e.Succ}] = true
+			}
+		}
+		for _, ei := range callsIn(fn, func(cc *ssa.CallCommon) bool { return callsFunc(cc, isEOF) }) {
+			ec := ei.(*ssa.Call)
+			if len(ec.Call.Args) < 2 || !a.has(ec.Call.Args[1]) {
+				continue
+			}
+			for _, e := range condEdges(ec) {
+				if e.Val {
+					prune[[2]int{e.If.Block().Index, e.Succ}] = true
+				}
+			}
+		}
+		again := false
+		exits := searchExits(fn, call, nil, SearchOpts{
+			Stop: func(in ssa.Instruction) bool {
+				if in == ssa.Instruction(call) {
+					again = true
+					return true
+				}
+				if st, ok := in.(*ssa.Store); ok && a.has(st.Val) {
+					if _, isCell := st.Addr.(*ssa.Alloc); !isCell {
+						return true
+					}
+				}
+				return false
+			},
+			EdgeOK: func(b *ssa.BasicBlock, i int) bool { return !prune[[2]int{b.Index, i}] },
+			ExitOK: func(in ssa.Instruction) bool {
+				ret, ok := in.(*ssa.Return)
+				if !ok {
+					return true
+				}
+				isNil, known := returnsNilError(ret)
+				return !(known && isNil) // error (or possibly-error) exits carry no obligation
+			},
+		})
+		cons := fmt.Sprintf("row-packet#%d:stored-before-next-step", n)
+		if !again && len(exits) == 0 {
+			r.ok(rule, name, cons, c.Pos(call.Pos()), "every row packet is appended to the result before the next read, the 16 MiB break or the success return")
+		} else {
+			var p []string
+			if len(exits) > 0 {
+				p = c.pathStrings(exits[0])
+			}
+			r.viol(rule, name, cons, c.Pos(call.Pos()), "a packet read as a row can be dropped (the loop continues, breaks or returns success without storing it): the client receives a result with a row missing and no error", p...)
+		}
+	}
+	if n == 0 {
+		r.undecided(rule, name, "row-packet", c.Pos(fn.Pos()), "no readPacket call")
+	}
+}
+
+// ruleC16c: statements never see each other's values: every statement registered in SessionExecutor.stmts went through
+// ResetParams (its own fresh argument slice) before it was stored.
+func ruleC16c(c *Ctx, r *Report) {
+	const rule = "MP-C16c"
+	r.floor(rule, 1)
+	stmtsF := c.Field(serverRel, "SessionExecutor", "stmts")
+	reset := c.Method(serverRel, "Stmt", "ResetParams")
+	if stmtsF == nil || reset == nil {
+		r.undecided(rule, "proxy/server", "anchor", "-", "anchors not found")
+		return
+	}
+	n := 0
+	for _, fn := range c.Funcs {
+		if c.IsMockFunc(fn) {
+			continue
+		}
+		allInstrs(fn, func(in ssa.Instruction) {
+			mu, ok := in.(*ssa.MapUpdate)
+			if !ok || loadedField(mu.Map) != stmtsF {
+				return
+			}
+			n++
+			name := c.FuncName(fn)
+			dom := false
+			for _, ci := range callsIn(fn, func(cc *ssa.CallCommon) bool { return callsFunc(cc, reset) }) {
+				cc := callCommon(ci)
+				if sameVal(cc.Args[0], mu.Value) && instrDominates(ci, mu) {
+					dom = true
+				}
+			}
+			if dom {
+				r.ok(rule, name, "register:stmts", c.Pos(mu.Pos()), "the statement gets its own fresh argument slice (ResetParams) before it is registered")
+			} else {
+				r.viol(rule, name, "register:stmts", c.Pos(mu.Pos()), "a statement handle is registered without ResetParams: its argument slice may be shared with another handle (values of one statement appear in another)")
+			}
+		})
+	}
+	if n == 0 {
+		r.undecided(rule, "proxy/server", "register:stmts", "-", "no registration of prepared statements found")
+	}
+}
+
+// ruleC32c: the outcome of every proxy exchange reaches the decision: in ModifyNamespace's goroutines the value sent on
+// the error channels is the result of the proxy.PrepareConfig / proxy.CommitConfig call (def-use), so a failed prepare
+// cannot be reported as success.
+func ruleC32c(c *Ctx, r *Report) {
+	const rule = "MP-C32c"
+	r.floor(rule, 2)
+	mod := c.Func("cc/service", "ModifyNamespace")
+	if mod == nil {
+		r.undecided(rule, "cc/service.ModifyNamespace", "anchor", "-", "not found")
+		return
+	}
+	n := 0
+	for _, fn := range c.Funcs {
+		if fn.Parent() != mod {
+			continue
+		}
+		var proxyCalls []*ssa.Call
+		allInstrs(fn, func(in ssa.Instruction) {
+			if call, ok := in.(*ssa.Call); ok {
+				if f := call.Call.StaticCallee(); f != nil && f.Pkg != nil && f.Pkg.Pkg.Path() == modPath+"/cc/proxy" && errResultIndex(f.Signature) >= 0 {
+					proxyCalls = append(proxyCalls, call)
+				}
+			}
+		})
+		if len(proxyCalls) == 0 {
+			continue
+		}
+		allInstrs(fn, func(in ssa.Instruction) {
+			snd, ok := in.(*ssa.Send)
+			if !ok || !isErrorType(snd.X.Type()) {
+				return
+			}
+			n++
+			name := c.FuncName(fn)
+			from := false
+			for _, l := range phiLeaves(snd.X) {
+				for _, pc := range proxyCalls {
+					if l == ssa.Value(pc) || l == errResultOf(pc) {
+						from = true
+					}
+				}
+			}
+			label := proxyCalls[0].Call.StaticCallee().Name()
+			if from {
+				r.ok(rule, name, "send:error-of:"+label, c.Pos(snd.Pos()), "the error reported to the coordinator is the proxy call's own result")
+			} else {
+				r.viol(rule, name, "send:error-of:"+label, c.Pos(snd.Pos()), "the value reported for this proxy is not the result of the proxy call (e.g. a shadowed variable): a failed "+label+" is counted as success and the exchange goes on")
+			}
+		})
+	}
+	if n == 0 {
+		r.undecided(rule, c.FuncName(mod), "send:error", c.Pos(mod.Pos()), "no per-proxy result is reported from the goroutines")
+	}
+}
